@@ -3,6 +3,8 @@ import Chain33Model.Proofs.C15Inv
 C15 — the main ledger: `MainOK` is inductive (for non-negative genesis grants), exact effect of
 every main-ledger basic operation on `supply` and on each account's balance.
 -/
+set_option linter.unusedSectionVars false
+set_option linter.unusedSimpArgs false
 namespace C15
 section
 variable {σ κ : Type} [DecidableEq σ] [DecidableEq κ] (c : Cfg σ κ)
